@@ -1,5 +1,4 @@
 #include "common.h"
 namespace hv {
-    int run_collections(const Scenario &) { throw std::logic_error("collections mode not built"); }
     int run_higher_order(const Scenario &) { throw std::logic_error("higher_order mode not built"); }
 }
